@@ -18,6 +18,11 @@ import (
 //   running     session with np claims, nmsg messages each, then empty fetches
 //   rebalance   the hb-th heartbeat answers RebalanceInProgress: session ends, the application calls
 //               Consume again (join, sync, claims ...)
+//   noclaims    the member joins and is given an EMPTY assignment (the topic has partitions, another member
+//               owns them): a live session without claims; only the partition-number watcher turns Close
+//               into the end of the session
+//   ctxwait     session with claims whose handler does not range over Messages() but blocks on
+//               session.Context().Done() (legal: "return when the context is done")
 //   nocoord     FindCoordinator answers ConsumerCoordinatorNotAvailable: Consume fails, is called again
 //   silentjoin  JoinGroup is never answered (read timeout)
 //   race        (needs the hook of hooks/c12_group_handleerror.patch; without it an ordinary run) the partition
@@ -97,7 +102,7 @@ func (s *grpScript) handler() func(string, interface{}) interface{} {
 				parts[i] = int32(i)
 			}
 			m := sarama.NewMockSyncGroupResponse(quietT{s.rc})
-			if np > 0 {
+			if np > 0 && s.spec.Scen != "noclaims" {
 				m.SetMemberAssignment(&sarama.ConsumerGroupMemberAssignment{Version: 1, Topics: map[string][]int32{topic: parts}})
 			}
 			return m
@@ -157,11 +162,18 @@ func (s *grpScript) handler() func(string, interface{}) interface{} {
 	}
 }
 
-type grpHandler struct{ rc *runCtx }
+type grpHandler struct {
+	rc      *runCtx
+	ctxWait bool
+}
 
 func (grpHandler) Setup(sarama.ConsumerGroupSession) error   { return nil }
 func (grpHandler) Cleanup(sarama.ConsumerGroupSession) error { return nil }
 func (h grpHandler) ConsumeClaim(sess sarama.ConsumerGroupSession, claim sarama.ConsumerGroupClaim) error {
+	if h.ctxWait {
+		<-sess.Context().Done()
+		return nil
+	}
 	for m := range claim.Messages() {
 		sess.MarkMessage(m, "")
 		h.rc.event("msg")
@@ -249,7 +261,7 @@ func runGroup(spec Spec) Result {
 		defer close(consumeDone)
 		for i := 0; i < 200; i++ {
 			report("Call 1")
-			e := g.Consume(context.Background(), []string{topic}, grpHandler{rc})
+			e := g.Consume(context.Background(), []string{topic}, grpHandler{rc, spec.Scen == "ctxwait"})
 			report(fmt.Sprintf("Ret 1 %d", cls(e)))
 			if e == sarama.ErrClosedConsumerGroup || atomic.LoadInt32(&closedFlag) == 1 {
 				return
@@ -321,7 +333,7 @@ func runGroup(spec Spec) Result {
 			}
 			obs = append(obs, fmt.Sprintf("Ret 0 %d", r))
 			obs = append(obs, "Call 1")
-			e := g.Consume(context.Background(), []string{topic}, grpHandler{rc})
+			e := g.Consume(context.Background(), []string{topic}, grpHandler{rc, spec.Scen == "ctxwait"})
 			obs = append(obs, fmt.Sprintf("Ret 1 %d", cls(e)))
 			if e != sarama.ErrClosedConsumerGroup {
 				rc.fail("consume-after-close:group", fmt.Sprintf("Consume on a closed group returned %v", e))
